@@ -2,6 +2,7 @@
 //! record NDJSON traces for validation by TLC.  See /verif/DESIGN.md.
 mod dhcp;
 mod store;
+mod wire;
 mod util;
 
 fn main() {
@@ -13,6 +14,7 @@ fn main() {
     match args[1].as_str() {
         "dhcp" => dhcp::main(&args[2..]),
         "store" => store::main(&args[2..]),
+        "wire" => wire::main(&args[2..]),
         d => {
             eprintln!("unknown driver {}", d);
             std::process::exit(2);
